@@ -2424,7 +2424,10 @@ func (pid *PID) reset() {
 	pid.processedCount.Store(0)
 	pid.failureCount.Store(0)
 	pid.reinstateCount.Store(0)
-	pid.restartCount.Store(0)
+	// restartCount is deliberately left untouched: reset() also runs in the
+	// shutdown embedded in a restart, and the number of restarts is the one
+	// counter that must survive it. A PID that is stopped for good is never
+	// reused (a fresh spawn allocates a new PID).
 	pid.startedAt.Store(0)
 	pid.setState(runningState, false)
 	pid.setState(stoppingState, false)
